@@ -1,4 +1,5 @@
 import GA.Go.Path
+import Driver.Proto
 /-
   Line-protocol driver: one case per line on stdin, one canonical outcome per
   line on stdout.  Core-only imports, so it links as a native executable.
@@ -28,6 +29,7 @@ def handle (line : String) : String :=
       | some s => "OK " ++ showStr (splitLast s).1 ++ " " ++ showStr (splitLast s).2 | none => "bad-op"
   | "within" :: a :: b :: _ => match strOfHex a, strOfHex b with
       | some x, some y => if isWithin x y then "OK 01" else "OK 00" | _, _ => "bad-op"
+  | op :: _ => if op = "untar" ∨ op = "layer" ∨ op = "untar-chroot" ∨ op = "layer-chroot" then handleFs ws else "bad-op"
   | _ => "bad-op"
 
 partial def loop (h : IO.FS.Stream) (out : IO.FS.Stream) : IO Unit := do
